@@ -99,9 +99,8 @@ class Region:
                         break
                 if ok:
                     return True
-        for c, r in self.discs:
-            if math.hypot(p[0] - c[0], p[1] - c[1]) + m <= r:
-                return True
+        # discs (round joins / caps) are only used for the outside test: the statement's round join is a sector on the
+        # outer side and its round cap a half disc, which the full disc over-approximates when a neighbouring segment is short
         return False
 
 
